@@ -353,10 +353,24 @@ pub fn encode_with_random_head_fault(v: &Value, src: &mut Src) -> (Vec<u8>, Opti
         return (refcbor::encode(v), None);
     }
     let idx = src.below(hs.len());
-    let fault = if src.bool() {
-        HeadFault::Wider { idx, width: *src.pick(&[1u8, 2, 4, 8]) }
-    } else {
-        HeadFault::Indefinite { idx }
+    let fault = match src.below(3) {
+        0 => HeadFault::Wider { idx, width: *src.pick(&[1u8, 2, 4, 8]) },
+        1 => HeadFault::Indefinite { idx },
+        _ => {
+            // a length / count / value that lies: larger than what follows
+            let (_, n) = hs[idx];
+            let arg = match src.below(8) {
+                0 => n.wrapping_add(1),
+                1 => n.saturating_sub(1),
+                2 => 23,
+                3 => 255,
+                4 => 65535,
+                5 => 0xFFFF_FFFF,
+                6 => 0x1_0000_0000,
+                _ => u64::MAX,
+            };
+            HeadFault::Lie { idx, arg }
+        }
     };
     let (b, applied) = refcbor::encode_fault(v, fault);
     (b, if applied { Some(format!("{:?}", fault).split(' ').next().unwrap_or("head").to_string()) } else { None })
